@@ -71,12 +71,32 @@ def r12_1(ctx: Ctx):
     ctx.floor(rid, 'mutation sites in the library', len(muts), 300)
 
 
-def r12_2(ctx: Ctx):
-    rid = 'R12.2'
-    ctx.rule(rid, 'no global statement, no store to a module or class attribute after import, no mutation of an '
-                  'object allocated in a module or class body')
+def r12_2(ctx: Ctx, only_modules=None, rid: str = 'R12.2', consequence: str = ''):
+    """only_modules: restrict to mutation sites inside modules whose name starts with one of the prefixes (used by
+    the evolvent checks: process-wide state written by evolvent code makes queries depend on other instances)."""
+    if only_modules is None:
+        ctx.rule(rid, 'no global statement, no store to a module or class attribute after import, no mutation of an '
+                      'object allocated in a module or class body')
     roles = C.roles_of(ctx)
     pta = ctx.pta
+    if only_modules is not None:
+        n_local = 0
+        for (f, st, name) in pta.global_writes:
+            if f.module.name.startswith(tuple(only_modules)):
+                ctx.fail(rid, f.short, f.loc(st), f'module-level variable {name} is rebound inside {f.short}: '
+                                                  f'{consequence}', key=ctx.key_for(rid, f, st))
+        for m in roles.mutations():
+            if m.func.kind in ('module', 'classbody') or m.init_self or \
+                    not m.func.module.name.startswith(tuple(only_modules)):
+                continue
+            n_local += 1
+            for o in m.bases:
+                if (o.kind == 'cls' and m.kind in ('attr', 'aug', 'del')) or o.kind == 'module' or \
+                        (o.scope in ('module', 'class', 'memo') and o.kind in MUTABLE_KINDS):
+                    ctx.fail(rid, m.func.short, m.loc(),
+                             f'{m.text()[:70]} writes process-wide state ({o.describe()}): {consequence}',
+                             key=ctx.key_for(rid, m.func, m.node))
+        return n_local
     for (f, st, name) in pta.global_writes:
         ctx.fail(rid, f.short, f.loc(st), f'module-level variable {name} is rebound inside {f.short} (global statement)',
                  key=ctx.key_for(rid, f, st))
@@ -265,19 +285,24 @@ PROCESS_STATE_SETTERS = {
 }
 
 
-def r12_5(ctx: Ctx):
+PROCESS_STATE_GETTERS = {'numpy.geterr', 'numpy.geterrcall', 'numpy.get_printoptions', 'random.getstate',
+                         'numpy.random.get_state', 'sys.getrecursionlimit', 'locale.getlocale', 'os.getcwd',
+                         'decimal.getcontext', 'sys.getswitchinterval', 'gc.get_threshold'}
+
+
+def r12_5(ctx: Ctx, rid: str = 'R12.5', only_modules=None):
     """Process-wide state outside Python objects: the floating-point error mode of numpy, the warnings filters, the
     seeds of the global generators...  A solver that changes one of them changes the arithmetic every other solver
     in the process sees.  The only accepted use is a change that is undone on *every* exit of the function that
     made it - normal return, early return and exception alike (try/finally, or a context manager instead)."""
-    rid = 'R12.5'
     ctx.rule(rid, 'pairing: a library routine that changes process-wide interpreter / numpy / warnings state restores '
                   'the saved state on every exit (returns and exceptions); expected number of such routines: 0')
     pta = ctx.pta
     sites = {}
     n_calls = 0
     for f in ctx.ix.funcs.values():
-        if not f.module.name.startswith('iOpt.'):
+        if not f.module.name.startswith('iOpt.') or \
+                (only_modules is not None and not f.module.name.startswith(tuple(only_modules))):
             continue
         for nd in ast.walk(f.node):
             if isinstance(nd, ast.Call):
@@ -299,6 +324,10 @@ def r12_5(ctx: Ctx):
             saved = []          # results of setter calls on this path
             dirty = None
             for e in p.events:
+                if e.kind == 'call' and dirty is None and e.d.get('result') is not None and \
+                        (set(c for c in e.d['callees'] if isinstance(c, str)) & PROCESS_STATE_GETTERS):
+                    saved.append(e.d['result'])      # the state read while it is still the caller's
+                    continue
                 if e.kind != 'call' or not (set(c for c in e.d['callees'] if isinstance(c, str))
                                             & PROCESS_STATE_SETTERS):
                     continue
@@ -322,7 +351,7 @@ def r12_5(ctx: Ctx):
     if not sites:
         ctx.ok(rid, 'iOpt/*', f'{n_calls} call sites scanned: none changes process-wide interpreter/numpy/warnings state',
                'iOpt/')
-    ctx.floor(rid, 'call sites scanned for process-wide state setters', n_calls, 1000)
+    ctx.floor(rid, 'call sites scanned for process-wide state setters', n_calls, 1000 if only_modules is None else 100)
 
 
 def check(ctx: Ctx):
